@@ -36,6 +36,7 @@ def run(ctx) -> None:
     from .common import memo_rule, none_concat_rule
 
     ctx.guard("C18.mode", memo_rule, "C18.no-cache", ("worklists/utils.py",))
+    ctx.guard("C18.one-permutation", _one_shot)
 
     ctx.guard("C18.mode", none_concat_rule, "C18.mode", ("optimize_partition_by", "partition_by_column"), "returning the (explicitly chosen or automatic) mode")
     # the automatic choice asks the labware whether it is a trough
@@ -616,3 +617,13 @@ def wiring(ctx, dev) -> None:
     ok = t is not None and isinstance(t, ast.Call) and call_fname(t) == "optimize_partition_by"
     ctx.rep.check(ok, rule, cb + "/mode-used", "partition_by_column uses the mode that optimize_partition_by returned",
                   f"partition_by_column is called with the mode `{show(t)[:50] if t is not None else None}`, not with the result of optimize_partition_by", where=f.where(parts[0].call))
+
+
+def _one_shot(ctx) -> None:
+    """the triples are not lost on the way: a zip / generator bound to a local is walked once (a second walk is empty)"""
+    from .common import one_shot_iterator_rule
+
+    rule = "C18.one-permutation"
+    n = one_shot_iterator_rule(ctx, rule, ("partition_by_column", "optimize_partition_by"))
+    if n == 0:
+        ctx.rep.holds(rule, "partition_by_column/no-one-shot-local", "no zip / map / generator object is kept in a local of the partitioning functions (expected count zero)")
